@@ -189,7 +189,7 @@ def check(repo: Repo, R) -> None:
     R.check(io_all and inner, rule, key_of(fw), fw.site, f"Wrapper clones every port of io(m) — signal and bundle valued — keyed by its name ({io_all}) and passes each to the same-named port of the single inner instance ({inner})",
             why="bundle-valued ports are not exposed, or ports are wired to differently named ports")
     # the array partition this topology relies on
-    c01.array_partition(repo, R, "C19.5-array-element-k-gets-bit-k")
+    R.run(c01.array_partition, repo, R, "C19.5-array-element-k-gets-bit-k")
     # the generators build a fresh module on every call: no table of earlier results lives in the file
     st_ = shared.module_level_state(repo.file(F_GENERATORS).tree)
     if not shared.module_level_state(ast.parse("_seen = dict()\ndef f(m):\n    _seen[m.name] = m\n")):
